@@ -94,6 +94,26 @@ def gen_case(rng, rich_criterion=False, small=False):
     elif style == "chaos":
         profile.update(p_fail=0.12, p_stop_ext=0.08, p_stopping=0.1, p_pause=0.25, p_stop=0.2, p_none=0.08,
                        p_resume=0.5, p_resume_bad=0.05, p_complete=0.2, p_first_report=0.5)
+    if rich_criterion or rng.random() < 0.2:
+        params["num_type"] = rng.choice(scripted.NUM_TYPES)
+        if params["num_type"] in ("int", "np.int64"):
+            profile["int_values"] = True
+            for k in ("min_metric_value", "max_metric_value"):   # thresholds inside the integer range 0..10
+                if k in params["criterion"]:
+                    params["criterion"][k] = float(rng.randint(1, 3) if k.startswith("min") else rng.randint(7, 9))
+            if "max_cost" in params["criterion"]:
+                params["criterion"]["max_cost"] = float(rng.randint(0, 20))
+    if rich_criterion:
+        u = rng.random()
+        if u < 0.04:      # zero budgets: the criterion holds before anything happened
+            profile["polls"] = 0
+            style = "zero_budget_extra"
+        elif u < 0.08:
+            params["criterion"] = dict(params["criterion"], max_wallclock_time=0.0)
+            profile["clock_start"] = rng.choice([0.25, 1.0, 5.0])
+            style = "zero_budget_wallclock"
+        elif u < 0.16:
+            params["rerun"] = True
     return dict(params=params, profile=profile, style=style, seed=rng.getrandbits(48))
 
 
@@ -258,6 +278,24 @@ def check_c12(params, out):
             bad.append(("loop body entered after the stop condition held (wait_trial_completion_when_stopping=False)",
                         dict(check="exit", event="loop_body")))
             break
+    # ---- a criterion that holds from the very start: nothing may be started at all ---------------------------------
+    rec = out.get("record") or {}
+    ext, clk = rec.get("ext") or [], rec.get("clk") or []
+    wc = crit.get("max_wallclock_time")
+    always = (ext and all(ext)) or (wc is not None and clk and min(clk) > wc)
+    if always and out["outcome"][0] != "aborted":
+        first = next((ev[0] for ev in tr if ev[0] in ("s_suggest", "b_start", "b_resume", "cb_loop_start")), None)
+        if first is not None:
+            bad.append(("the stop criterion holds at every moment of this run (%s) but the loop was entered (%s)" % (
+                "extra user criterion always True" if (ext and all(ext)) else "max_wallclock_time=%s, clock >= %s" % (wc, min(clk)), first),
+                dict(check="exit", event="criterion_held_from_the_start", first=first)))
+    # ---- run() called again on the finished tuner: the criterion still holds, so nothing happens --------------------
+    if out.get("second_outcome") is not None and out["outcome"] == ["normal"]:
+        last = [ev for ev in tr if ev[0] == "stop_cond"]
+        st2 = out.get("second_trace") or []
+        if last and last[-1][2] and any(ev[0] in ("s_suggest", "b_start", "b_resume", "cb_loop_start") for ev in st2):
+            bad.append(("run() called again on the finished Tuner (stop condition held when the first run ended) enters the loop "
+                        "again: %s" % ([ev[0] for ev in st2][:8],), dict(check="exit", event="second_run_enters_loop")))
     # ---- the StoppingCriterion itself, re-evaluated from its documentation ---------------------------
     bad.extend(check_stopping_criterion(params, out))
     # ---- finally block ----------------------------------------------------------------------
@@ -345,6 +383,13 @@ def expected_criterion(crit, obs):
     below / above a threshold' (per metric). max_wallclock_time : 'once this wallclock time is reached' - equality
     is left undecided (returns None for that field). Returns {field: True|False|None} for the fields that are set."""
     res = {}
+    if obs.get("truth") is not None:
+        # statistics of the delivered results computed by the harness itself (scripted.ScriptedBackend.truth), not the
+        # ones TuningStatus keeps
+        tr = obs["truth"]
+        obs = dict(obs, evaluations=tr["evaluations"], cost=tr["cost"],
+                   min_metrics={} if tr["min_m"] is None else {"m": tr["min_m"]},
+                   max_metrics={} if tr["max_m"] is None else {"m": tr["max_m"]})
     for field, key in (("max_num_evaluations", "evaluations"), ("max_num_trials_started", "started"),
                        ("max_num_trials_completed", "completed"), ("max_num_trials_finished", "finished"),
                        ("max_cost", "cost")):
@@ -369,13 +414,14 @@ def check_stopping_criterion(params, out):
         exp = expected_criterion(crit, obs)
         must = [f for f, v in exp.items() if v is True]
         undecided = [f for f, v in exp.items() if v is None]
-        shown = {k: obs[k] for k in ("wallclock", "evaluations", "started", "completed", "finished", "cost")}
-        shown.update(min_m=obs["min_metrics"].get("m"), max_m=obs["max_metrics"].get("m"))
+        shown = {k: obs[k] for k in ("wallclock", "started", "completed", "finished")}
+        shown.update(obs.get("truth") or dict(evaluations=obs["evaluations"], cost=obs["cost"],
+                                               min_m=obs["min_metrics"].get("m"), max_m=obs["max_metrics"].get("m")))
         went_on = "the run went on" if i + 1 < len(obs_list) else "the run ended"
         if must and not obs["criterion"]:
             return [("evaluation %d: %s holds (%s; criterion %s) but the real StoppingCriterion returned False, %s" % (
                 i, must[0], shown, crit, went_on),
-                     dict(check="stopping_criterion", field=must[0]))]
+                     dict(check="stopping_criterion", field=must[0], value_type=params.get("num_type", "float")))]
         if obs["criterion"] and not must and not undecided:
             return [("evaluation %d: no field of the criterion %s holds (%s) but the real StoppingCriterion returned True, %s" % (
                 i, crit, shown, went_on),
